@@ -5,12 +5,15 @@ import (
 	"fmt"
 	"os"
 	"path/filepath"
+	"runtime"
 	"strings"
 	"sync"
+	"sync/atomic"
 	"time"
 
 	"github.com/ARM-software/golang-utils/utils/commonerrors"
 	"github.com/ARM-software/golang-utils/utils/subprocess"
+	"github.com/ARM-software/golang-utils/utils/subprocess/command"
 	"github.com/ARM-software/golang-utils/utils/subprocess/supervisor"
 )
 
@@ -34,7 +37,8 @@ type c05Member struct {
 	closePipes bool
 	newGroup   bool
 	children   []*c05Member
-	exitEarly  bool // exits right after spawning its children
+	exitEarly  bool // exits on its own, exitAfter ms after spawning its children
+	exitAfter  int
 	foreground bool // parent waits for it
 	suspended  bool // suspends itself (SIGSTOP) once its children are started
 }
@@ -62,7 +66,7 @@ func (m *c05Member) describe() string {
 		flags = append(flags, "ownGroup")
 	}
 	if m.exitEarly {
-		flags = append(flags, "exitsEarly")
+		flags = append(flags, fmt.Sprintf("exitsAfter%dms", m.exitAfter))
 	}
 	if m.foreground {
 		flags = append(flags, "fg")
@@ -103,7 +107,11 @@ func (m *c05Member) script(isRoot bool) *hScript {
 		s.Steps = append(s.Steps, hStep{Op: "stopself"})
 	}
 	if m.exitEarly {
-		s.Steps = append(s.Steps, hStep{Op: "sleep", Ms: 30}, hStep{Op: "exit", Code: 0})
+		ms := m.exitAfter
+		if ms == 0 {
+			ms = 30
+		}
+		s.Steps = append(s.Steps, hStep{Op: "sleep", Ms: ms}, hStep{Op: "exit", Code: 0})
 	} else {
 		s.Steps = append(s.Steps, hStep{Op: "sleep", Ms: 20000}, hStep{Op: "exit", Code: 0})
 	}
@@ -131,10 +139,18 @@ func genC05Tree(ch *Chooser, name string, depth int) *c05Member {
 	m.suspended = ch.Pick("suspended", 7, 1) == 1
 	if len(m.children) > 0 {
 		m.exitEarly = !m.suspended && ch.Pick("exitearly", 5, 2) == 1
+		if m.exitEarly {
+			m.exitAfter = []int{30, 30, 150, 400, 800}[ch.Intn("exitafter", 5)]
+		}
 		// a foreground child makes the parent wait: only the last child may be in the foreground
 		if !m.exitEarly && ch.Pick("fg", 3, 1) == 1 {
 			m.children[len(m.children)-1].foreground = true
 		}
+	}
+	if len(m.children) == 0 && depth > 0 && !m.suspended && ch.Pick("leafexits", 5, 1) == 1 {
+		// a short-lived leaf: it keeps whatever it inherited (e.g. the output pipes) only for a while
+		m.exitEarly = true
+		m.exitAfter = []int{30, 150, 400, 800}[ch.Intn("exitafter", 4)]
 	}
 	return m
 }
@@ -172,9 +188,14 @@ func runC05(rc *RunCtx) {
 		when = 2
 		res.Probe("daemon-style-tree")
 	}
+	// immediately: Stop() / Restart() follow Start() with nothing in between, on one processor - the goroutines the
+	// library has just launched (monitoring) have not run yet; the request must not be lost
+	if startMode == 1 && stopMode >= 3 && ch.Intn("immediately", 5) == 0 {
+		when = 3
+	}
 	startName := []string{"Execute", "Start", "Supervisor"}[startMode]
 	stopName := []string{"context-cancel", "context-deadline", "Cancel()", "Stop()", "Restart()"}[stopMode]
-	whenName := []string{"while-spawning", "tree-complete", "later"}[when]
+	whenName := []string{"while-spawning", "tree-complete", "later", "immediately-after-Start"}[when]
 	res.Config = fmt.Sprintf("tree=%s start=%s stop=%s when=%s", tree.describe(), startName, stopName, whenName)
 	res.Digest = hashStrings(res.Config)
 	members := tree.count(true)
@@ -197,12 +218,25 @@ func runC05(rc *RunCtx) {
 	defer cancel()
 	var deadlineCancel context.CancelFunc
 	expiring := newExpiringContext(ctx)
-	p, err := subprocess.New(expiring, rec, "start", "success", "failure", helperPath(), script)
+	// a quarter of the scenarios go through the "run as" entry points with a harmless translator (env <command>)
+	asWrapper := startMode != 2 && ch.Intn("aswrapper", 4) == 0
+	res.Config += fmt.Sprintf(" throughSetupAs(env)=%v", asWrapper)
+	res.Digest = hashStrings(res.Config)
+	var p *subprocess.Subprocess
+	if asWrapper {
+		p = &subprocess.Subprocess{}
+		err = p.SetupAs(expiring, rec, "start", "success", "failure", command.NewCommandAsDifferentUser("env"), helperPath(), script)
+		res.Probe("started-through-SetupAs")
+	} else {
+		p, err = subprocess.New(expiring, rec, "start", "success", "failure", helperPath(), script)
+	}
 	if err != nil {
 		res.Infra = "subprocess.New: " + err.Error()
 		return
 	}
 	execDone := make(chan error, 1)
+	var execReturnedAt atomic.Int64
+	prevProcs := runtime.GOMAXPROCS(0)
 	t0 := time.Now()
 	var supMu sync.Mutex
 	if startMode == 2 {
@@ -217,8 +251,16 @@ func runC05(rc *RunCtx) {
 		}, supervisor.WithRestartDelay(10*time.Millisecond))
 		go func() { execDone <- sup.Run(expiring) }()
 	} else if startMode == 0 {
-		go func() { execDone <- p.Execute() }()
+		go func() {
+			e := p.Execute()
+			execReturnedAt.Store(time.Now().UnixNano())
+			execDone <- e
+		}()
 	} else {
+		if when == 3 {
+			prevProcs = runtime.GOMAXPROCS(1)
+			defer runtime.GOMAXPROCS(prevProcs)
+		}
 		if err := p.Start(); err != nil {
 			res.Infra = "Start: " + err.Error()
 			return
@@ -226,6 +268,7 @@ func runC05(rc *RunCtx) {
 	}
 	// wait for the scripted instant
 	switch when {
+	case 3:
 	case 0:
 		// "running" starts when the root process exists: a stop request placed before Execute's goroutine has got as far
 		// as starting the command is not a request for a running subprocess (Execute resets the cancellation state first)
@@ -283,8 +326,18 @@ func runC05(rc *RunCtx) {
 		p.Cancel()
 		stopDone <- nil
 	case 3:
+		if when == 3 {
+			stopDone <- p.Stop() // in line: before anything else gets the processor
+			runtime.GOMAXPROCS(prevProcs)
+			break
+		}
 		go func() { stopDone <- p.Stop() }()
 	case 4:
+		if when == 3 {
+			stopDone <- p.Restart()
+			runtime.GOMAXPROCS(prevProcs)
+			break
+		}
 		go func() { stopDone <- p.Restart() }()
 	}
 	if deadlineCancel != nil {
@@ -307,7 +360,10 @@ func runC05(rc *RunCtx) {
 			// a command that ends by itself (the root exits early) may do so at the very moment of the stop request:
 			// when Execute does not report a context kind it did not act on the request - it had finished on its own,
 			// which is the same situation as "returned before the stop request", only decided a moment later
-			if startMode == 0 && tree.exitEarly && !commonerrors.Any(execErr, commonerrors.ErrCancelled, commonerrors.ErrTimeout) {
+			// ... provided Execute was over within 20 ms of the request: one that went on for longer (e.g. waiting for the
+			// output pipes a descendant still holds) was running when it was asked to stop, whatever it then returns
+			if startMode == 0 && tree.exitEarly && !commonerrors.Any(execErr, commonerrors.ErrCancelled, commonerrors.ErrTimeout) &&
+				time.Unix(0, execReturnedAt.Load()).Sub(stopAt) < 20*time.Millisecond {
 				res.Probe("execute-ended-by-itself-at-the-stop-request")
 				res.NonTrivial = false
 				if rc.KeepTrace {
